@@ -303,7 +303,7 @@ pub fn run_c05(ctx: &Ctx) -> Report {
 
 // ------------------------------------------------------------------------------------------------ C03
 const C03_POS: [&str; 7] = ["assignment", "sequence-component", "set-component", "choice-alternative", "nested-component", "sequence-of-element", "set-of-element"];
-const C03_KIND: [&str; 5] = ["primitive", "referenced-sequence", "referenced-choice", "inline-choice", "open-type"];
+const C03_KIND: [&str; 7] = ["primitive", "referenced-sequence", "referenced-choice", "inline-choice", "open-type", "fixed-type-class-field-integer", "fixed-type-class-field-boolean"];
 
 fn c03_point(tagging: Tagging, mode: TagMode, class: TagClass, pos: usize, kind: usize) -> Option<ModuleSet> {
     let tagged_kind = match kind {
@@ -318,10 +318,13 @@ fn c03_point(tagging: Tagging, mode: TagMode, class: TagClass, pos: usize, kind:
             ext: None,
             root2: vec![],
         }),
-        _ => TyKind::Any,
+        4 => TyKind::Any,
+        // a fixed-type value field of a class is just that type (X.681 14): tagged like a primitive
+        5 => TyKind::ClassField { class: "CLSQ1".into(), field: "id".into() },
+        _ => TyKind::ClassField { class: "CLSQ1".into(), field: "flag".into() },
     };
     // an IMPLICIT keyword on an untagged CHOICE / open type is illegal ASN.1 (X.680 31.2.7 c)
-    if mode == TagMode::Implicit && kind >= 2 {
+    if mode == TagMode::Implicit && (2..=4).contains(&kind) {
         return None;
     }
     let num = match class {
@@ -358,7 +361,13 @@ fn c03_point(tagging: Tagging, mode: TagMode, class: TagClass, pos: usize, kind:
             tagging,
             ext_implied: false,
             imports: vec![],
-            assigns: vec![Assign::Type { name: "Tq91".into(), ty: seq }, Assign::Type { name: "Tq92".into(), ty: ch }, Assign::Type { name: "Tq1".into(), ty: top }],
+            assigns: {
+                let mut a = vec![Assign::Type { name: "Tq91".into(), ty: seq }, Assign::Type { name: "Tq92".into(), ty: ch }, Assign::Type { name: "Tq1".into(), ty: top }];
+                if kind >= 5 {
+                    a.push(Assign::Raw { name: "CLSQ1".into(), tokens: "CLSQ1 ::= CLASS { &id INTEGER UNIQUE , &flag BOOLEAN OPTIONAL , &Type OPTIONAL } WITH SYNTAX { ID &id [ FLAG &flag ] [ TYPE &Type ] }".split(' ').map(|x| x.to_string()).collect() });
+                }
+                a
+            },
             oid: None,
         }],
     })
@@ -403,7 +412,7 @@ fn c03_space() -> Vec<(String, ModuleSet)> {
         for (mi, mode) in [TagMode::NoKeyword, TagMode::Implicit, TagMode::Explicit].iter().enumerate() {
             for (ci, class) in [TagClass::Context, TagClass::Application, TagClass::Private, TagClass::Universal].iter().enumerate() {
                 for pos in 0..7 {
-                    for kind in 0..5 {
+                    for kind in 0..7 {
                         if let Some(s) = c03_point(*tagging, *mode, *class, pos, kind) {
                             v.push((format!("P(default={ti},kw={mi},class={ci},pos={pos},kind={kind}) {:?}/{:?}/{:?}/{}/{}", tagging, mode, class, C03_POS[pos], C03_KIND[kind]), s));
                         }
@@ -560,7 +569,7 @@ fn c03_copied_components(rep: &mut Report) {
 pub fn run_c03(ctx: &Ctx) -> Report {
     let mut rep = Report::new(
         "fault_enumeration",
-        "EXHAUSTIVE product space of the property: module default {EXPLICIT, IMPLICIT, AUTOMATIC, none} x keyword {none, IMPLICIT, EXPLICIT} x class {context, APPLICATION, PRIVATE, UNIVERSAL} x position {type assignment, SEQUENCE component, SET component, CHOICE alternative, component of an anonymous nested type, SEQUENCE OF element, SET OF element} x tagged kind {primitive, referenced SEQUENCE, referenced CHOICE, inline CHOICE, open type} (IMPLICIT keyword on CHOICE/open type is illegal and skipped) plus the automatic-tagging sub-space {default} x {no / one / all components tagged} x {SEQUENCE, SET, CHOICE} x {top-level, nested}; plus random grammar-G compositions. Oracle (attribute level): class and number equal the source tag; explicit iff EXPLICIT keyword, or no keyword under EXPLICIT/no TAGS clause, or tagged CHOICE/open type (for CHOICE-typed components the marking is not observable and not judged); automatic_tags iff AUTOMATIC TAGS and no own component tagged. Non-trivial = warning-free Ok compilation judged; distinct by model hash.",
+        "EXHAUSTIVE product space of the property: module default {EXPLICIT, IMPLICIT, AUTOMATIC, none} x keyword {none, IMPLICIT, EXPLICIT} x class {context, APPLICATION, PRIVATE, UNIVERSAL} x position {type assignment, SEQUENCE component, SET component, CHOICE alternative, component of an anonymous nested type, SEQUENCE OF element, SET OF element} x tagged kind {primitive, referenced SEQUENCE, referenced CHOICE, inline CHOICE, open type, fixed-type class field (INTEGER, BOOLEAN)} (IMPLICIT keyword on CHOICE/open type is illegal and skipped) plus the automatic-tagging sub-space {default} x {no / one / all components tagged} x {SEQUENCE, SET, CHOICE} x {top-level, nested}; plus random grammar-G compositions. Oracle (attribute level): class and number equal the source tag; explicit iff EXPLICIT keyword, or no keyword under EXPLICIT/no TAGS clause, or tagged CHOICE/open type (for CHOICE-typed components the marking is not observable and not judged); automatic_tags iff AUTOMATIC TAGS and no own component tagged. Non-trivial = warning-free Ok compilation judged; distinct by model hash.",
     );
     rep.must_observe = vec!["tags_compared".into(), "tag_modes_compared".into(), "automatic_tags_compared".into()];
     rep.assumptions = vec!["X.680 31.2.7 as implemented in oracle.rs::check_tag".into(), "DER-level observation (O6) is not part of this revision; attribute level only".into()];
